@@ -331,7 +331,7 @@ func c19TCPRun(c c19TCPCase) []*core.Violation {
 	if err != nil {
 		return []*core.Violation{core.V("HARNESS-newclient", "%v", err)}
 	}
-	callErr := cl.DialAndSendWithContext(context.Background(), simpleMsg(1, 1, "quoted-printable"))
+	callErr := cl.DialAndSend(simpleMsg(1, 1, "quoted-printable"))
 	deadline := time.Now().Add(2 * time.Second)
 	_ = ln.L.Close()
 	ln.Srv.Release()
